@@ -7,12 +7,17 @@
   feasible at every temperature, non-negative, and each `d_j` is the largest duty that keeps
   feasibility given the lower-grade duties.  Code side: the assignment model (`assignUtility`)
   is tied to the code and its bounds are proved under C03 (`OP.C03.duties_nonneg_and_bounded`,
-  `unreachable_gets_zero`, re-exported here); that the code's duties EQUAL this ladder is not a
-  theorem — the harness compares the implementation with an independently computed
-  lowest-grade-first optimum on every ladder of isothermal levels and checks
-  `0 ≤ H_net_ut ≤ H_net_actual` on every row.
+  `unreachable_gets_zero`, re-exported here).  Code-shaped feasibility: whenever a utility receives a
+  duty, the duty assigned so far stays within the load the profile holds at a row its SUPPLY level
+  reaches (`assign_respects_supply_level`, any utilities, any profile); and an isothermal level on a
+  strictly descending grid takes exactly the largest unassigned load its level reaches
+  (`isothermal_level_takes_largest`), which is the ladder step `NP(L) − acc` of the specification.
+  Not a theorem: the target-temperature side of a GLIDING utility's profile (the `Q_tt` limit) —
+  the harness checks `0 ≤ H_net_ut ≤ H_net_actual` on every row and compares the implementation
+  with an independently computed lowest-grade-first optimum on every ladder of isothermal levels.
 -/
 import OPModel.Properties.C03
+import OPModel.Proofs.UtilityFeasible
 import Mathlib.Tactic.Ring
 
 namespace OP.C04
@@ -95,6 +100,46 @@ theorem assignment_bounds (tol : Rat) (htol : 0 ≤ tol) (T H : List Rat) (isHot
     (hM : ∀ h ∈ H, h ≤ M) (hM0 : 0 ≤ M) (us : List ULevel) :
     (∀ d ∈ assignLoop tol T H isHot limit 0 us, 0 ≤ d) ∧ (assignLoop tol T H isHot limit 0 us).sum ≤ M :=
   C03.duties_nonneg_and_bounded tol htol T H isHot limit M hM hM0 us
+
+/-- **No utility supplies heat below (removes heat above) the level at which the process can
+    exchange it — code-shaped.**  For ANY profile, ANY utilities (isothermal or gliding) in the
+    loop's processing order and ANY start: if the `k`-th utility receives a duty, then the duty
+    assigned so far — to it and to every utility processed before it — is at most the load `r.2`
+    of some row `r` of the profile that its supply level reaches (hot: `T_r ≤ t_supply + tol`;
+    cold: `T_r ≥ t_supply − tol`). -/
+theorem assign_respects_supply_level (tol : Rat) (T H : List Rat) (isHot : Bool) (limit qA : Rat)
+    (us : List ULevel) (k : Nat) (hk : k < us.length) :
+    (assignLoop tol T H isHot limit qA us)[k]? = some 0 ∨
+      ∃ r ∈ T.zip H, Reaches tol isHot us[k] r ∧
+        qA + ((assignLoop tol T H isHot limit qA us).take (k + 1)).sum ≤ r.2 :=
+  assignLoop_reaches tol T H isHot limit us qA k hk
+
+/-- **Each isothermal level carries the largest duty — code-shaped.**  On a strictly descending
+    grid an isothermal utility's duty is zero (nothing within reach) or equals the largest
+    potential `H_row − assigned` over the valid intervals its level reaches: no smaller (second
+    part) and no larger (first part). -/
+theorem isothermal_level_takes_largest (tol : Rat) (T H : List Rat) (u : ULevel) (isHot : Bool) (qA : Rat)
+    (hiso : u.tt = u.ts) (hlen : T.length = H.length) (hdesc : T.Pairwise (· > ·)) :
+    maximiseUtilityDuty tol T H u isHot qA = 0 ∨
+      ((∃ c ∈ candidates tol T H u isHot qA, maximiseUtilityDuty tol T H u isHot qA ≤ c.qPot) ∧
+       ∀ c ∈ candidates tol T H u isHot qA, c.qPot ≤ maximiseUtilityDuty tol T H u isHot qA) := by
+  rcases maximise_le_candidate tol T H u isHot qA with h | h
+  · exact Or.inl h
+  · cases isHot with
+    | true =>
+      rcases maximise_isothermal_hot tol T H u qA hiso hlen hdesc with h' | h'
+      · exact Or.inl h'
+      · exact Or.inr ⟨h, h'⟩
+    | false =>
+      rcases maximise_isothermal_cold tol T H u qA hiso hlen hdesc with h' | h'
+      · exact Or.inl h'
+      · exact Or.inr ⟨h, h'⟩
+
+/-- Non-vacuity (heating profile 500 → 300 → 0 over 200/150/100): an isothermal level at 160 takes
+    the 300 it reaches and the level at 210 the rest; a loop gliding 210 → 120 may take all 500. -/
+example : assignLoop Gen.tol [200, 150, 100] [500, 300, 0] true 500 0 [⟨160, 160⟩, ⟨210, 210⟩] = [300, 200] ∧
+    assignLoop Gen.tol [200, 150, 100] [500, 300, 0] true 500 0 [⟨210, 120⟩, ⟨260, 260⟩] = [500, 0] := by
+  constructor <;> decide +kernel
 
 /-- Non-vacuity: profile `NP(T) = max 0 (T − 100)·10` with levels 150, 200, 260. -/
 example : ladderFrom (fun t => max 0 ((t - 100) * 10)) 0 [150, 200, 260] = [500, 500, 600] := by decide +kernel
